@@ -87,7 +87,17 @@ impl Ord for LocalSegment {
     fn cmp(&self, other: &Self) -> Ordering {
         match (self, other) {
             (LocalSegment::UInt(a), LocalSegment::UInt(b)) => a.cmp(b),
-            (LocalSegment::Str(a), LocalSegment::Str(b)) => a.to_lowercase().cmp(&b.to_lowercase()),
+            (LocalSegment::Str(a), LocalSegment::Str(b)) => {
+                // A numeric part beyond u32 is kept as text (without leading zeros): it still
+                // compares by value and ranks below every alphanumeric part
+                let numeric = |s: &str| !s.is_empty() && s.bytes().all(|c| c.is_ascii_digit());
+                match (numeric(a), numeric(b)) {
+                    (true, true) => a.len().cmp(&b.len()).then_with(|| a.cmp(b)),
+                    (true, false) => Ordering::Less,
+                    (false, true) => Ordering::Greater,
+                    (false, false) => a.to_lowercase().cmp(&b.to_lowercase()),
+                }
+            }
             (LocalSegment::UInt(_), LocalSegment::Str(_)) => Ordering::Less,
             (LocalSegment::Str(_), LocalSegment::UInt(_)) => Ordering::Greater,
         }
